@@ -3,10 +3,12 @@
 use crate::runner::ScenarioFn;
 
 pub mod c02;
+pub mod c10;
 
 pub fn scenario_for(property: &str) -> Option<ScenarioFn> {
     match property {
         "C02" => Some(c02::run),
+        "C10" => Some(c10::run),
         _ => None,
     }
 }
